@@ -313,9 +313,17 @@ def _opaque_atoms(nf):
 def _rowwise_value(ctx, ex, v, key, loc):
     """multivariate kernels: the returned buffer is written row by row in a loop"""
     rule = "C01.a NF-KERNEL"
+    gather = None
     if v.arr is None:
-        ctx.undecided(rule, key, loc, "multivariate kernel does not return an allocated buffer (unrecognised idiom)")
-        return None, None
+        # result = buffer[G] for an index array G (e.g. a sorting permutation used to reorder the batch): row i of the
+        # result is row G[i] of the buffer
+        base, idxs = v.meta.get("index_of"), v.meta.get("index")
+        if isinstance(base, Num) and base.arr is not None and idxs is not None and len(idxs) == 1 and isinstance(idxs[0], Num) and idxs[0].shape is not None and len(idxs[0].shape) == 1 and idxs[0].dtype == "int":
+            gather = idxs[0]
+            v = base
+        else:
+            ctx.undecided(rule, key, loc, "multivariate kernel does not return an allocated buffer (unrecognised idiom)")
+            return None, None
     a = v.arr
     if len(a.stores) != 1 or not a.stores[0].loops:
         ctx.undecided(rule, key, loc, f"{len(a.stores)} stores into the cost buffer; expected one store per cut inside a loop")
@@ -328,14 +336,64 @@ def _rowwise_value(ctx, ex, v, key, loc):
     lvnf = NF.atom(Atom("lv", ctxl.lid))
     idx_ok = len(idx) == 2 and isinstance(idx[0], Num) and nf_equal(idx[0].nf, lvnf) and isinstance(idx[1], Num) and idx[1].nf.as_const() == 0
     ctx.check(rows_ok and idx_ok and not st.data.get("aug"), "C01.d ROW-INDEP", key + "|loop", st.loc(), "row i of the result is written exactly once, from cut i (loop over all cuts, store at [i, 0])", found=f"costs[{_idxs(idx)}] in range {rng}", expected="costs[i, 0] for i in range(k)")
+    valnf = val.nf
+    if gather is not None:
+        ok_len = nf_equal(lift(gather.shape[0]), lift(K))
+        ctx.check(ok_len, "C01.c SHAPE-COLS", key + "|gathered-rows", loc, "the result keeps one row per cut", found=f"{gather.shape[0]!r} rows", expected="k rows")
+        g_i = app("idx", gather.nf, (("at", lvnf),))
+        valnf = _perm_simplify(subst(valnf, {Atom("lv", ctxl.lid).key: g_i}))
     # rename cuts[i, j] -> s, e
     s_i = app("idx", app("col", sym("cuts"), NF.const(0)), (("at", lvnf),))
     e_i = app("idx", app("col", sym("cuts"), NF.const(1)), (("at", lvnf),))
-    code = subst(val.nf, {single_atom(s_i).key: sym("s"), single_atom(e_i).key: sym("e")})
+    code = subst(valnf, {single_atom(s_i).key: sym("s"), single_atom(e_i).key: sym("e")})
     left = [x for x in atoms_of(code).values() if x.kind == "lv"]
     if left:
         ctx.violation("C01.d ROW-INDEP", key + "|reads", st.loc(), "the value stored for cut i reads something other than cuts[i] through the loop index", found=repr(code))
     return code, st
+
+
+def _perm_simplify(nf):
+    """A[argsort(argsort(A))] o argsort(A) = identity:  idx(argsort(A), at idx(argsort(argsort(A)), at t)) -> t  (and the
+    converse composition).  Nothing else is known about permutations: order[order[i]] stays as it is."""
+    from ..nf import evalnf
+
+    def is_argsort(x):
+        a = single_atom(x) if isinstance(x, NF) else (x if isinstance(x, Atom) else None)
+        if a is not None and a.kind == "app" and a.args and a.args[0] == "argsort":
+            return a.args[1]
+        return None
+
+    def f(a):
+        if a.kind == "app" and a.args and a.args[0] == "idx" and len(a.args) == 3:
+            spec = a.args[2]
+            # A[P][t] -> A[P[t]]
+            ba = single_atom(a.args[1]) if isinstance(a.args[1], NF) else None
+            if ba is not None and ba.kind == "app" and ba.args[0] == "idx" and len(ba.args) == 3 and isinstance(spec, tuple) and len(spec) == 1 and isinstance(spec[0], tuple) and spec[0][0] == "at":
+                sp0 = ba.args[2]
+                if isinstance(sp0, tuple) and len(sp0) == 1 and isinstance(sp0[0], tuple) and sp0[0][0] == "gather":
+                    inner_t = app("idx", lift(sp0[0][1]), (("at", lift(spec[0][1])),))
+                    return app("idx", ba.args[1], (("at", evalnf(inner_t, f)),))
+            outer = is_argsort(a.args[1])
+            if outer is not None and isinstance(spec, tuple) and len(spec) == 1 and isinstance(spec[0], tuple) and spec[0][0] == "at":
+                t = spec[0][1]
+                ta = single_atom(t) if isinstance(t, NF) else None
+                if ta is not None and ta.kind == "app" and ta.args[0] == "idx" and len(ta.args) == 3:
+                    inner = is_argsort(ta.args[1])
+                    sp2 = ta.args[2]
+                    if inner is not None and isinstance(sp2, tuple) and len(sp2) == 1 and sp2[0][0] == "at":
+                        # outer = argsort(A), inner = argsort(B): inverse pair iff B = argsort(A) or A = argsort(B)
+                        io, ii = is_argsort(outer), is_argsort(inner)
+                        if (ii is not None and nf_equal(lift(ii), lift(outer))) or (io is not None and nf_equal(lift(io), lift(inner))):
+                            return lift(sp2[0][1])
+        return None
+
+    prev = None
+    cur = nf
+    for _ in range(4):
+        if prev is not None and nf_equal(prev, cur):
+            break
+        prev, cur = cur, evalnf(cur, f)
+    return cur
 
 
 def _row_indep(ctx, ex, p, state, v, code_nf, key, loc):
@@ -383,6 +441,16 @@ def _must_raise_nonpd(ctx, paths, key, loc):
             ctx.check(ok, rule, key, p.exc.func.loc(p.exc.node) if p.outcome == "raise" and p.exc.func else loc, "sample covariance not positive definite => documented RuntimeError", found=(p.exc.exc_name if p.outcome == "raise" else "returns a value"), expected="raise RuntimeError")
     if seen == 0:
         ctx.violation(rule, key, loc, "no branch tests the sign of the covariance determinant: a non-positive-definite slice is scored silently")
+    # conversely, every returning path has taken the positive branch of the sign test (no shortcut around it)
+    for k, p in enumerate(q for q in paths if q.outcome == "return"):
+        pos = False
+        for c, v in p.facts:
+            if c.t[0] == "cmp" and "detsign" in c.key:
+                nonpd = v if c.t[1] in ("<=0", "<0") else (not v)
+                if not nonpd:
+                    pos = True
+        side = [repr(c)[:60] for c, v in p.facts if "detsign" not in c.key][-2:]
+        ctx.check(pos, rule, key + f"|return#{k}", loc, "a value is returned only after the determinant sign test came out positive" if pos else "a returning path bypasses the determinant sign test: a degenerate (non-positive-definite) slice gets a finite or -inf cost instead of RuntimeError", found=f"path facts {side}", expected="det_sign > 0 decided on every returning path")
 
 
 # ------------------------------------------------------------ PARAM-DISPATCH
